@@ -1,6 +1,5 @@
 SPECIFICATION Spec
-CONSTANT Clause = "bytes"
+CONSTANT Prop = "C02"
 CONSTRAINT Mark
-CONSTRAINT Skipped
 POSTCONDITION AllAccepted
 CHECK_DEADLOCK FALSE
